@@ -112,12 +112,12 @@ def check_transfer(res, params, seed):
             res.violate(Violation("corrupt-body-returned", "error or the exact representation",
                                   "%d bytes, first difference at %s" % (len(out["payload"]), first_diff(out["payload"], rep)),
                                   "message.py:_append_response_block", case, key=mis[0]))
-        if mis[0] == "b2-etag" and 1 <= mis[1] and out["exchanges"] > mis[1] + (1 if method == "GET" else 0) and not failed_loudly and out["done"]:
+        if mis[0] in ("b2-etag", "b2-etag-dropped") and 1 <= mis[1] and out["exchanges"] > mis[1] + (1 if method == "GET" else 0) and not failed_loudly and out["done"]:
             res.violate(Violation("representation-change-accepted", "error when the ETag differs between blocks",
                                   "returned %r" % out["code"], "message.py:_append_response_block", case, key="etag"))
         if not out["done"]:
             res.violate(Violation("transfer-hangs", "ends", "pending", "protocol.py", case, key="hang-" + mis[0]))
-        if out["done"] and not failed_loudly and mis[0] in ("b1-wrong-num", "b1-more-on-final") and method != "GET" and bit(params):
+        if out["done"] and not failed_loudly and mis[0] in ("b1-wrong-num", "b1-more-on-final", "b1-continue-on-final") and method != "GET" and bit(params):
             res.violate(Violation("protocol-violation-accepted", "error", "returned %r" % out["code"], "protocol.py:BlockwiseRequest._run", case, key=mis[0]))
     if out["loopexc"]:
         res.violate(Violation("loop-exception", "none", out["loopexc"], "loop", case, key="loop"))
@@ -132,7 +132,7 @@ def bit(params):
     size = 1 << (min(sszx, cexp) + 4)
     nblocks = max(1, -(-l1 // size))
     if l1 <= (1124 if cexp >= 6 else (1 << (cexp + 4))):
-        return False
+        return False       # sent unfragmented: no Block1 acknowledgement to misbehave in
     if mis[0] == "b1-wrong-num":
         return mis[1] < nblocks - 1
     return True
@@ -173,7 +173,8 @@ def grid(tier):
     return out
 
 
-MISBEHAVIOURS = ("b1-wrong-num", "b1-more-on-final", "b2-short", "b2-etag", "b2-skip", "b2-stale", "b2-more-past-end")
+MISBEHAVIOURS = ("b1-wrong-num", "b1-more-on-final", "b1-continue-on-final", "b2-short", "b2-etag", "b2-etag-dropped", "b2-skip", "b2-stale",
+                 "b2-more-past-end")
 
 
 def misgrid(tier):
@@ -190,9 +191,10 @@ def misgrid(tier):
                             l2 = L if mis.startswith("b2") else 10
                             if mis.startswith("b1") and method == "GET":
                                 continue
-                            if mis == "b2-etag" and at == 0:
+                            if mis in ("b2-etag", "b2-etag-dropped") and at == 0:
                                 continue   # a representation that is different from the start is simply another representation
-                            out.append((method, l1, l2, szx, 6, None, None, (mis, at)))
+                            # the client only fragments the request body when its own maximum block size asks for it
+                            out.append((method, l1, l2, szx, szx if mis.startswith("b1") else 6, None, None, (mis, at)))
     return out
 
 
